@@ -149,7 +149,19 @@ func elementJSON(i int, e bulkElem, pat string) string {
 	case "UNKNOWN":
 		return fmt.Sprintf(`{"action":"FROBNICATE",%s"data":{"el":"%d"}}`, key, pos)
 	case "MALFORMED":
-		return fmt.Sprintf(`{"action":"CREATE_TRANSACTION",%s"data":"not an object %d"}`, key, pos)
+		// data that cannot be decoded for its action, a different action at each position
+		switch pos % 5 {
+		case 1:
+			return fmt.Sprintf(`{"action":"CREATE_TRANSACTION",%s"data":"not an object %d"}`, key, pos)
+		case 2:
+			return fmt.Sprintf(`{"action":"DELETE_METADATA",%s"data":{"targetType":"TRANSACTION","targetId":"not-a-number-%d","key":"k%d"}}`, key, pos, pos)
+		case 3:
+			return fmt.Sprintf(`{"action":"ADD_METADATA",%s"data":{"targetType":"ACCOUNT","targetId":{"nested":%d},"metadata":{"el":"%d"}}}`, key, pos, pos)
+		case 4:
+			return fmt.Sprintf(`{"action":"REVERT_TRANSACTION",%s"data":{"id":"x%d"}}`, key, pos)
+		default:
+			return fmt.Sprintf(`{"action":"DELETE_METADATA",%s"data":{"targetType":"ACCOUNT","targetId":%d,"key":"k%d"}}`, key, pos, pos)
+		}
 	}
 	return `{}`
 }
